@@ -225,6 +225,20 @@ CLAIMS = {
         "ignored (unobservable).",
         "DESIGN.md §3 C08",
     ),
+    "C04": (
+        "exploration",
+        "exhaustive program x deviation enumeration (ProgX) through both codecs with a differential oracle on canonical "
+        "snapshots and an independently compiled schema validator",
+        "563 (quick) / ~1500 (thorough) programs: 5 program families covering every building operation x argument-style "
+        "deviations (positional / keyword / omitted / explicit default; each alone and pairs) x registers {2D, 3D, from a "
+        "layout, mappable} x devices {inline virtual with EOM+DMM, MockDevice by name, custom physical} x parametrized variants "
+        "(each numeric position alone and all together as variable expressions). For each: document valid under the published "
+        "schema (own validator) , decoding succeeds, device and register equal, decoded snapshot equal (or, when parametrized / "
+        "mappable, builds for two assignments equal), encode-decode-encode is a fixpoint, measurement and variables equal, and "
+        "encoding leaves the original's full snapshot (incl. call log) unchanged; abstract and legacy codecs.",
+        "Channels compared as a name-keyed map. Known finding: numpy.round expressions are not exportable.",
+        "DESIGN.md §3 C04",
+    ),
 }
 
 PENDING_REASON = "check not built yet in this round (design in DESIGN.md §3); nothing is claimed for it"
